@@ -6,6 +6,7 @@ import (
 	"fmt"
 	"os"
 	"path/filepath"
+	"strconv"
 	"strings"
 )
 
@@ -38,15 +39,24 @@ func overlayFor(repo string, files map[string]string) (map[string][]byte, error)
 	return ov, nil
 }
 
+type strList []string
+
+func (s *strList) String() string     { return strings.Join(*s, ",") }
+func (s *strList) Set(v string) error { *s = append(*s, v); return nil }
+
+// cmdRun explores one harness and dumps the raw report (development aid).
 func cmdRun(args []string) {
 	fs := flag.NewFlagSet("run", flag.ExitOnError)
 	repo := fs.String("repo", "/repo", "repository root")
 	pkg := fs.String("pkg", ".", "package pattern (relative to repo)")
 	tags := fs.String("tags", "", "build tags")
+	dir := fs.String("hdir", "", "harness directory whose *.go files are overlaid into the package directory")
 	files := fs.String("files", "", "comma-separated dst=src overlay files (dst relative to repo)")
 	fn := fs.String("func", "", "harness function name")
 	workers := fs.Int("workers", 16, "workers")
 	verbose := fs.Bool("v", false, "verbose")
+	var params strList
+	fs.Var(&params, "p", "harness parameter NAME=VALUE (repeatable)")
 	fs.Parse(args)
 	fm := map[string]string{"internal/vx/vx.go": "/verif/vx/vx.go"}
 	for _, kv := range strings.Split(*files, ",") {
@@ -56,12 +66,24 @@ func cmdRun(args []string) {
 		p := strings.SplitN(kv, "=", 2)
 		fm[p[0]] = p[1]
 	}
+	if *dir != "" {
+		ents, _ := os.ReadDir(*dir)
+		for _, e := range ents {
+			if strings.HasSuffix(e.Name(), ".go") {
+				fm[filepath.Join(*pkg, e.Name())] = filepath.Join(*dir, e.Name())
+			}
+		}
+	}
 	ov, err := overlayFor(*repo, fm)
 	if err != nil {
 		fmt.Fprintln(os.Stderr, err)
 		os.Exit(2)
 	}
-	eng, err := LoadProgram(LoadConfig{Dir: *repo, Patterns: []string{*pkg}, Tags: *tags, Overlay: ov})
+	pat := *pkg
+	if !strings.HasPrefix(pat, ".") {
+		pat = "./" + pat
+	}
+	eng, err := LoadProgram(LoadConfig{Dir: *repo, Patterns: []string{pat}, Tags: *tags, Overlay: ov})
 	if err != nil {
 		fmt.Fprintln(os.Stderr, "load:", err)
 		os.Exit(2)
@@ -69,6 +91,12 @@ func cmdRun(args []string) {
 	eng.overlaySrc = ov
 	eng.workers = *workers
 	eng.verbose = *verbose
+	eng.params = map[string]int64{}
+	for _, kv := range params {
+		p := strings.SplitN(kv, "=", 2)
+		v, _ := strconv.ParseInt(p[1], 10, 64)
+		eng.params[p[0]] = v
+	}
 	var h = eng.findHarness(*fn)
 	if h == nil {
 		fmt.Fprintln(os.Stderr, "no such harness:", *fn)
@@ -76,10 +104,12 @@ func cmdRun(args []string) {
 	}
 	rep := eng.Explore(h, 0, 0)
 	rep.Funcs = nil
+	if len(rep.Violations) > 3 {
+		rep.Violations = rep.Violations[:3]
+	}
 	out, _ := json.MarshalIndent(rep, "", " ")
 	fmt.Println(string(out))
-	fmt.Fprintf(os.Stderr, "queries=%d sat=%d unsat=%d unknown=%d errors=%d fallbacks=%d solver_s=%.2f\n",
-		gStats.Queries, gStats.SatN, gStats.UnsatN, gStats.UnknownN, gStats.Errors, gStats.Fallbacks, float64(gStats.Nanos)/1e9)
+	fmt.Fprintf(os.Stderr, "paths=%d completed=%d infeasible=%d queries=%d sat=%d unsat=%d unknown=%d errors=%d fallbacks=%d solver_s=%.2f wall=%.1f\n",
+		rep.Paths, rep.Completed, rep.Infeasible,
+		gStats.Queries, gStats.SatN, gStats.UnsatN, gStats.UnknownN, gStats.Errors, gStats.Fallbacks, float64(gStats.Nanos)/1e9, rep.Wall)
 }
-
-func cmdCheck(args []string) int { return 2 }
